@@ -19,7 +19,7 @@ arch_type_name(const IMB_MGR *m)
 {
         static char b[8][32];
         static int k = 0;
-        static const char *a[] = { "none", "noaesni", "sse", "avx", "avx2", "avx512" };
+        static const char *a[] = { "none", "sse", "avx2", "avx512", "?", "?" };
         char *o = b[k++ & 7];
         snprintf(o, 32, "%s_t%u", m->used_arch < 6 ? a[m->used_arch] : "?", (unsigned) m->used_arch_type);
         return o;
